@@ -15,29 +15,6 @@ namespace Ubx.Py
 open Ubx Ubx.Gen.Code
 variable {σ α : Type}
 
-/-- level-2 host: level 1 plus the reader's own methods, run as the code they are in the working tree -/
-def h2Mcall (E : REnv σ α) (fuel : Nat) (obj : V (RO α)) (m : Name) (args : List (V (RO α))) (kw : List (Name × V (RO α)))
-    (st : RSt σ) : X (RO α) (V (RO α)) × RSt σ :=
-  if m = 0x5f70617273655f756278 then            -- _parse_ubx
-    match obj, args with
-    | .host .self, [.bytes hd] => runFn (h1 E) fuel fn_UBXReader__parse_ubx [.host .self, .bytes hd] st
-    | _, _ => (raiseX xUnsupported, st)
-  else if m = 0x5f70617273655f6e6d6561 then     -- _parse_nmea
-    match obj, args with
-    | .host .self, [.bytes hd] => runFn (h1 E) fuel fn_UBXReader__parse_nmea [.host .self, .bytes hd] st
-    | _, _ => (raiseX xUnsupported, st)
-  else if m = 0x5f70617273655f7274636d33 then   -- _parse_rtcm3
-    match obj, args with
-    | .host .self, [.bytes hd] => runFn (h1 E) fuel fn_UBXReader__parse_rtcm3 [.host .self, .bytes hd] st
-    | _, _ => (raiseX xUnsupported, st)
-  else if m = 0x5f646f5f6572726f72 then         -- _do_error
-    match obj, args with
-    | .host .self, [.exc c a] => runFn (h1 E) fuel fn_UBXReader__do_error [.host .self, .exc c a] st
-    | _, _ => (raiseX xUnsupported, st)
-  else h1Mcall E obj m args kw st
-
-def h2 (E : REnv σ α) (fuel : Nat) : Host (RO α) (RSt σ) := { h1 E with mcall := h2Mcall E fuel }
-
 theorem h2_glob (E : REnv σ α) (f : Nat) : (h2 E f).glob = readGlob := rfl
 theorem h2_call (E : REnv σ α) (f : Nat) : (h2 E f).call = h1Call E := rfl
 theorem h2_mcall (E : REnv σ α) (f : Nat) : (h2 E f).mcall = h2Mcall E f := rfl
